@@ -439,7 +439,8 @@ func vreCompare(ref, got *vreDen, identity map[string]bool, withDeletes, onlyNew
 	out = append(out, got.errs...)
 	coveredByDelete := func(p string) bool {
 		for q := range ref.deletes {
-			if p == q || strings.HasPrefix(p, q+"/") {
+			// (a gNMI path that leaves out trailing keys of a list addresses every entry with the keys it names)
+			if p == q || strings.HasPrefix(p, q+"/") || strings.HasPrefix(p, q+"[") {
 				return true
 			}
 		}
@@ -486,7 +487,26 @@ func vreCompare(ref, got *vreDen, identity map[string]bool, withDeletes, onlyNew
 	if withDeletes {
 		a, b := vreMinimal(ref.deletes), vreMinimal(got.deletes)
 		if strings.Join(a, " ") != strings.Join(b, " ") {
-			out = append(out, fmt.Sprintf("deleted subtrees %v, proto deletes %v", b, a))
+			// the proto deletes aggregate the entries of a multi-key list that share their leading keys into one path
+			// without the trailing keys: the same entries, as long as every entry named that way is deleted one by one
+			same := true
+			for _, x := range b {
+				if !coveredByDelete(x) {
+					same = false
+				}
+			}
+			for _, q := range a {
+				covers := false
+				for _, x := range b {
+					if x == q || strings.HasPrefix(x, q+"[") {
+						covers = true
+					}
+				}
+				same = same && covers
+			}
+			if !same {
+				out = append(out, fmt.Sprintf("deleted subtrees %v, proto deletes %v", b, a))
+			}
 		}
 	}
 	for _, r := range got.replaced {
@@ -838,6 +858,21 @@ func TestVerifReplayEncodings(t *testing.T) {
 			t.Fatal(err)
 		}
 		vreRun(t, ctx, scb, existing, revision, nil, nil, "edits="+strings.Join(names, "+"), report, &nJ, &nX, &nP)
+		mockCtrl.Finish()
+	}
+	// the revision of the intent is empty: everything the intent (and the device) holds goes
+	{
+		ctx := context.Background()
+		mockCtrl := gomock.NewController(t)
+		scb, err := testhelper.GetSchemaClientBound(t, mockCtrl)
+		if err != nil {
+			t.Fatal(err)
+		}
+		existing, err := vreExpand(ctx, vreBase(), utils.NewConverter(scb))
+		if err != nil {
+			t.Fatal(err)
+		}
+		vreRun(t, ctx, scb, existing, nil, nil, nil, "edits=give-up-everything", report, &nJ, &nX, &nP)
 		mockCtrl.Finish()
 	}
 	// a stronger intent of another owner holds case1 of the choice: the case the revision switches to loses and is not configured
